@@ -304,6 +304,9 @@ def run_get(s):
                     return
                 oblige(f"KeyError-iff-no-admissible-choice:{tag}", True)
                 covers["returned"] = covers.get("returned", 0) + 1
+                if not isinstance(m, MArr):
+                    oblige(f"broadcasts-against-the-array:{tag}", False, detail=f"get_metric returned an object of type {type(m).__name__}, not a DataArray")
+                    return
                 oblige(f"broadcasts-against-the-array:{tag}", set(m.dims) <= set(adims), detail=f"{m.dims} vs {adims}")
                 alts = []
                 q = {d: z3.Int(f"q_{d}") for d in m.dims}
@@ -549,6 +552,8 @@ def replay(ob):
             return {"confirmed": True, "text": "\n".join(text + [f"raised {type(e).__name__}: {e}"])}
         if not cands:
             return {"confirmed": True, "text": "\n".join(text + ["returned a metric although nothing admissible is registered"])}
+        if not isinstance(m, xr.DataArray):
+            return {"confirmed": True, "text": "\n".join(text + [f"REAL CODE returned an object of type {type(m).__name__}, not a DataArray"])}
         ok = any(set(c.dims) == set(m.dims) and np.allclose(c.transpose(*m.dims).values, m.values) for c in cands)
         return {"confirmed": not ok, "text": "\n".join(text + [f"result dims {m.dims}: {'matches an admissible choice' if ok else 'matches NONE of the ' + str(len(cands)) + ' admissible choices'}"])}
     # operations
